@@ -1,6 +1,6 @@
 """Per-property configuration of ./check (theorem lists, harness commands, evidence texts)."""
 
-GENERATORS = ["gen_ucode.py", "gen_consts.py", "gen_c01.py", "gen_muldiv.py", "gen_grammar.py"]
+GENERATORS = ["gen_ucode.py", "gen_consts.py", "gen_c01.py", "gen_muldiv.py", "gen_grammar.py", "gen_c03.py"]
 
 TRUSTED_BASE = [
     "Lean 4.33 kernel (re-checkable with leanchecker); axioms limited to propext, Classical.choice, Quot.sound (audited per theorem with #print axioms)",
@@ -222,14 +222,19 @@ prop("C06",
      )
 
 prop("C03",
-     modules=["Emu2a.Props.C03", "Emu2a.Props.C03x.Family"],
-     theorems=["Emu2a.C03.fromRadix_bound", "Emu2a.C03.validate_spec", "Emu2a.C03.parse_total", "Emu2a.C03.reject_family",
+     modules=["Emu2a.Props.C03", "Emu2a.Props.C03x.Family", "Emu2a.Props.C03x.Total"],
+     theorems=["Emu2a.C03.parse_never_panics", "Emu2a.Peg.run_sound", "Emu2a.Peg.run_mono", "Emu2a.Peg.run_agree",
+               "Emu2a.C03.X_holds", "Emu2a.C03.run_wf", "Emu2a.C03.parseInstruction_ok", "Emu2a.C03.parseLine_ok",
+               "Emu2a.C03.number_byte_ok", "Emu2a.C03.number_word_ok", "Emu2a.C03.constant_dec_ok", "Emu2a.C03.word_dec_ok",
+               "Emu2a.C03.constant_bin_ok", "Emu2a.C03.constant_hex_ok", "Emu2a.C03.parseRegister_ok", "Emu2a.C03.parseMemory_ok",
+               "Emu2a.C03.choicesOf_sound", "Emu2a.C03.fromRadix_ok",
+               "Emu2a.C03.fromRadix_bound", "Emu2a.C03.validate_spec", "Emu2a.C03.parse_total", "Emu2a.C03.reject_family",
                "Emu2a.C03.accept_family", "Emu2a.C03.label_limit"],
      harness="c03",
      shrink=False,
      exhaustive={"quick": False, "thorough": False},
-     level_text="PARTIAL. The model of the parser is a PEG interpreter over the grammar REGENERATED from mrasm.pest on every run (tools/gen_grammar.py) plus hand-written AST builders in which every unwrap/expect/unreachable of implementation/mod.rs is an explicit `panic <site>` outcome. Lean theorems: every numeric value a builder returns is below the limit of its type (fromRadix_bound), label validation rejects exactly >40 definitions / a reference without a case-insensitive definition (validate_spec), the parser model is total (parse_total); reject_family / accept_family / label_limit: kernel evaluation of the model parser on 33 boundary rejects (256, 0x100, nine significant binary digits, 65536, header variants, register-like labels, separators, undefined label), 11 accepts right below the boundaries with their ASTs, and 40 / 41 label definitions (tests, labelled as such: an edit of mrasm.pest or of a builder that moves a boundary breaks them). NOT a theorem: that no token tree of the grammar reaches a panic outcome in a builder, and language equality with a description independent of the grammar file; both are decided only up to the correspondence: real pest parser vs the model on generated programs whose AST is known by construction (spec.parse: the parser must return exactly the AST the text was rendered from), single-token mutations, directed accept/reject boundaries (255/256, 65535/65536, 8/9 binary digits, 40/41 labels, header) and raw byte/Unicode strings under catch_unwind (spec.noparsepanic)",
-     technique="Lean 4 PEG-interpreter model over the grammar translated from mrasm.pest + theorems on number/label validation + differential search against the real pest parser with construction-known ASTs",
+     level_text="PARTIAL (language equality is not a theorem). The model of the parser is a PEG interpreter over the grammar REGENERATED from mrasm.pest on every run (tools/gen_grammar.py; three outcomes: match, real failure, out of fuel - run_mono: an answer never changes with more fuel, so a failed alternative is a real failure) plus hand-written AST builders in which every unwrap/expect/unreachable!/inner_tuple! of implementation/mod.rs is an explicit `panic <site>` outcome. THEOREM parse_never_panics (build_total): for EVERY input text and every fuel the parser model never ends in a panic outcome - via run_sound (generic PEG metatheory: whatever the interpreter returns lies in a denotation of the expression that fixes the consumed text and the inner tokens, and every token tree is well-formed recursively), per-rule facts computed from the regenerated grammar (choicesOf: the possible inner-token sequences of each of the 94 rules; number rules: every text constant_bin/hex/dec and word_bin/hex/dec can match is a non-empty digit string whose value is below 256 / 65536, so from_str_radix(..).unwrap() cannot fail - decimal alternatives by kernel evaluation of their digit ranges, binary/hex by a 2^k / 16^k bound for any number of leading zeros), X_holds (the `raw_label` alternative of `memory` is dead because `constant` takes every label first - ordered choice, from fuel monotonicity), one generated lemma per alternative of `instruction` (81) and totality of every builder on well-formed trees. Further theorems: every numeric value a builder returns is below the limit of its type (fromRadix_bound), label validation rejects exactly >40 definitions / a reference without a case-insensitive definition (validate_spec); reject_family / accept_family / label_limit: kernel evaluation of the model parser on 33 boundary rejects, 11 accepts right below the boundaries with their ASTs, and 40 / 41 label definitions (tests, labelled as such). NOT a theorem: language equality with a description independent of the grammar file and that the returned AST lists what was written; decided up to the correspondence: real pest parser vs the model on generated programs whose AST is known by construction (spec.parse), single-token mutations, directed accept/reject boundaries, digit-less / signed literals and undefined labels in every operand position, raw byte/Unicode strings under catch_unwind (spec.noparsepanic)",
+     technique="Lean 4 PEG metatheory (denotation + soundness of the interpreter, fuel monotonicity) over the grammar translated from mrasm.pest, totality of the AST builders on every well-formed token tree (81 generated per-instruction lemmas), number-range proofs + differential search against the real pest parser with construction-known ASTs",
      rule="generated (AST, text) pairs over every instruction form, radix, leading zeros, case and spacing variants (`parse` = real result vs model result, `spec.parse` = real result vs the AST the text was written from), two single-token mutations of each, 30 directed rejects + 105 programs that reference an undefined label in every operand position and 8 directed boundary accepts, raw strings over an mrasm-biased and a Unicode alphabet (`spec.noparsepanic`); distinct = distinct texts",
      explanation="a difference on a `spec.` line is a concrete input on which the real parser returns the wrong program, accepts/rejects wrongly, or panics",
      assumptions=["pest's PEG semantics is modelled by the interpreter in Model/Peg.lean (ordered choice, greedy repetition, implicit whitespace off, SOI/EOI, case-insensitive literals); tied by the differential runs only"],
